@@ -56,11 +56,12 @@ impl LspProject {
                     .collect());
             }
 
-            return Ok(result
+            let tokens: Vec<SemanticToken> = result
                 .0
                 .into_iter()
                 .filter_map(|tok| LspTokenType(tok).into())
-                .collect());
+                .collect();
+            return Ok(to_relative_positions(tokens));
         } else {
             error!("URL must be convertible to a file path {}", url);
         }
@@ -90,6 +91,35 @@ impl LspProject {
     }
 }
 
+/// Converts tokens having absolute positions (line and character in the
+/// document) into tokens having positions relative to the previous token,
+/// which is the encoding of semantic tokens in the language server protocol.
+///
+/// The tokens must be in the order of their positions.
+fn to_relative_positions(tokens: Vec<SemanticToken>) -> Vec<SemanticToken> {
+    let mut relative = Vec::new();
+    let mut prev_line: u32 = 0;
+    let mut prev_start: u32 = 0;
+    for token in tokens {
+        let line = token.delta_line;
+        let start = token.delta_start;
+        relative.push(SemanticToken {
+            delta_line: line - prev_line,
+            delta_start: if line == prev_line {
+                start - prev_start
+            } else {
+                start
+            },
+            length: token.length,
+            token_type: token.token_type,
+            token_modifiers_bitset: token.token_modifiers_bitset,
+        });
+        prev_line = line;
+        prev_start = start;
+    }
+    relative
+}
+
 // Token types that this produces.
 pub const TOKEN_TYPE_LEGEND: [SemanticTokenType; 6] = [
     SemanticTokenType::VARIABLE,
@@ -104,6 +134,8 @@ const VARIABLE_INDEX: u32 = 0;
 const KEYWORD_INDEX: u32 = 1;
 const MODIFIER_INDEX: u32 = 2;
 const COMMENT_INDEX: u32 = 3;
+// Part of the legend but not produced: string literals are not highlighted.
+#[allow(dead_code)]
 const STRING_INDEX: u32 = 4;
 const OPERATOR_INDEX: u32 = 5;
 
@@ -126,7 +158,7 @@ impl From<LspTokenType> for Option<SemanticToken> {
             TokenType::Colon => None,
             TokenType::Period => None,
             TokenType::Hash => None,
-            TokenType::String => Some(STRING_INDEX),
+            TokenType::String => Some(KEYWORD_INDEX),
             TokenType::Identifier => Some(VARIABLE_INDEX),
             TokenType::HexDigits => None,
             TokenType::OctDigits => None,
@@ -241,17 +273,19 @@ impl From<LspTokenType> for Option<SemanticToken> {
             TokenType::Word => Some(KEYWORD_INDEX),
             TokenType::Dword => Some(KEYWORD_INDEX),
             TokenType::Lword => Some(KEYWORD_INDEX),
-            TokenType::Range => Some(KEYWORD_INDEX),
+            TokenType::Range => Some(OPERATOR_INDEX),
             TokenType::SingleByteString => None,
             TokenType::DoubleByteString => None,
             TokenType::Lreal => Some(KEYWORD_INDEX),
-            TokenType::RightArrow => Some(KEYWORD_INDEX),
+            TokenType::RightArrow => Some(OPERATOR_INDEX),
         };
 
+        // The position is the absolute position of the token. The length is in
+        // characters (the same unit as the column).
         token_type.map(|token_type| SemanticToken {
             delta_line: val.0.line as u32,
             delta_start: val.0.col as u32,
-            length: val.0.text.len() as u32,
+            length: val.0.text.chars().count() as u32,
             token_type,
             token_modifiers_bitset: 0,
         })
